@@ -6,7 +6,7 @@ From Coq Require Import List NArith ZArith Bool Permutation.
 Import ListNotations.
 Require Import Verif.Lib.Wire Verif.Gen.Facts_C18 Verif.Model.C18.
 Require Import Verif.Proofs.C18_kahn Verif.Proofs.C18_build Verif.Proofs.C18 Verif.Proofs.C18_rep Verif.Proofs.C18_cycle.
-Require Import Verif.Proofs.C18_gen Verif.Proofs.C18_derivers Verif.Proofs.C18_wire Verif.Proofs.C18_args Verif.Proofs.C18_make Verif.Proofs.C18_e2e.
+Require Import Verif.Proofs.C18_gen Verif.Proofs.C18_derivers Verif.Proofs.C18_wire Verif.Proofs.C18_args Verif.Proofs.C18_make Verif.Proofs.C18_e2e Verif.Proofs.C18_e2e_preds.
 
 (* the emission loop never runs out of fuel and never looks up a deleted node *)
 Theorem C18_sorted_total : forall s, sorted s <> Internal.
@@ -456,3 +456,19 @@ Theorem C18_selected_history_judged : forall ex (takes_effect : tevent -> bool) 
   = map (fun _ => vbool true) (filter takes_effect evs).
 Proof. exact selected_history_judged. Qed.
 Print Assumptions C18_selected_history_judged.
+
+(* predicates end to end: add_{view,route,subscriber}_predicate (regenerated chain) on top of the stock predicates ->
+   regenerated sorted() -> regenerated PredicateList.make: whenever make() succeeds, the sorted list is accepted by the
+   judge for the hints given to the DIRECTIVES (weighs_more_than = after, weighs_less_than = before), make creates one
+   predicate per given value in that order, and no predicate of an item is created (= evaluated) before a predicate of
+   an item it weighs more than, nor after one of an item it weighs less than *)
+Theorem C18_preds_end_to_end : forall k adds kw mo ordered order ps ph,
+  gen_sorted (gen_pred_sorter k adds) = Sorted ordered ->
+  gen_pl_make mo (Sorted ordered) kw = MkOk order ps ph ->
+  judge cfg_plain (decls_of cfg_plain (pred_ops k adds)) (Sorted ordered) = true /\
+  (ps = flat_map (made kw) ordered /\ ph = ps) /\
+  forall d, In d (decls_of cfg_plain (pred_ops k adds)) ->
+    (forall u, In u (opt_list (dafter d)) -> In u (dnames (decls_of cfg_plain (pred_ops k adds))) -> never_after ps u (dname d)) /\
+    (forall o, In o (opt_list (dbefore d)) -> In o (dnames (decls_of cfg_plain (pred_ops k adds))) -> never_after ps (dname d) o).
+Proof. exact preds_end_to_end. Qed.
+Print Assumptions C18_preds_end_to_end.
